@@ -251,6 +251,25 @@ def run(ck):
 
 
 def whole_structure_case(ck, sg, st, SymmetryConstraints, ExpandAsymmetricUnit):
+    if len(sg.symop_list) <= 4 and ck.rng.random() < 0.5:
+        # many independent sites: generators at listed indices i and 10*i+d (parameter symbols U111 and U1110, ...)
+        n = ck.rng.randrange(11, 27)
+        sites_ = []
+        while len(sites_) < n:
+            x0 = [str(Fraction(ck.rng.randrange(1, 997), 997)) for _ in range(3)]
+            if x0 not in sites_:
+                sites_.append(x0)
+        coreU = []
+        for _ in range(n):
+            v = [ck.rng.randrange(-90, 91) / 1000.0 for _ in range(6)]
+            coreU.append([[v[0] + 0.1, v[3], v[4]], [v[3], v[1] + 0.1, v[5]], [v[4], v[5], v[2] + 0.1]])
+        data = {"sites": sites_, "coreUijs": coreU, "shared_array": False,
+                "shuffle_seed": ck.rng.randrange(10 ** 9) if ck.rng.random() < 0.3 else None, "eps": None, "noise_seed": 0}
+        try:
+            prob = whole_eval(sg, data, SymmetryConstraints, ExpandAsymmetricUnit)
+        except Exception as e:
+            prob = "evaluation raised %r" % (e,)
+        return (prob, data) if prob else None
     k = min(len(st), ck.rng.choice([1, 2, 3]))
     chosen = ck.rng.sample(range(len(st)), k)
     coreU = []
